@@ -8,6 +8,8 @@ namespace Bardolph
 namespace Sim
 open Vm VmSteps Sem Gen
 
+variable {V : String → Prop}
+
 /-- not a routine marker (`ROUTINE` / `END`): what the loader looks for -/
 def Instr.plainI : Instr → Bool
   | .routine _ => false
@@ -40,19 +42,63 @@ theorem nr_genRv {v : Rv} (hv : RvOK v) (d : Dst) : (genRv v (.to d)).all Instr.
   | call _ _ _ => exact absurd hv (by simp [RvOK])
 
 
+/-! ### value positions with calls -/
+
+mutual
+  theorem nrC_genExpr : ∀ (e : Expr), ExprC V e → (genExpr e).all Instr.plainI = true
+    | .lit v, _ => by simp [genExpr, pushLit, Instr.plainI]
+    | .var n, _ => by simp [genExpr, Instr.plainI]
+    | .reg r, _ => by simp [genExpr, Instr.plainI]
+    | .call f ps as, h => by
+      have := nrC_genCall f ps as h.2.2
+      simp only [genExpr, List.all_append, this, Bool.true_and]; rfl
+    | .un m e, h => by
+      have := nrC_genExpr e h
+      cases m <;> simp [genExpr, this, Instr.plainI]
+    | .bin op a b, h => by
+      have h1 := nrC_genExpr a h.1
+      have h2 := nrC_genExpr b h.2
+      simp [genExpr, h1, h2, Instr.plainI]
+    | .paren e, h => by simpa [genExpr] using nrC_genExpr e h
+  theorem nrC_genRv : ∀ (v : Rv) (d : Dst), RvC V v → (genRv v (.to d)).all Instr.plainI = true
+    | .lit x, d, _ => by simp [genRv, Instr.plainI]
+    | .var n, d, _ => by simp [genRv, Instr.plainI]
+    | .reg r, d, _ => by simp only [genRv]; split <;> simp [Instr.plainI]
+    | .expr e, d, h => by
+      have := nrC_genExpr e h
+      simp [genRv, this, Instr.plainI]
+    | .call f ps as, d, h => by
+      have := nrC_genCall f ps as h.2.2
+      simp only [genRv, List.all_append, this, Bool.true_and]
+      split <;> simp [Instr.plainI]
+  theorem nrC_genCall : ∀ (f : String) (ps : List String) (as : Args), ArgsC V as →
+      (genCall f ps as).all Instr.plainI = true
+    | f, ps, as, h => by
+      have := nrC_genParams ps as h
+      simp only [genCall, List.all_append, this, Bool.and_true]; rfl
+  theorem nrC_genParams : ∀ (ps : List String) (as : Args), ArgsC V as →
+      (genParams ps as).all Instr.plainI = true
+    | [], _, _ => by simp only [genParams]; rfl
+    | _ :: _, .nil, _ => by simp only [genParams]; rfl
+    | p :: ps, .cons a rest, h => by
+      have h1 := nrC_genRv a Gen.result h.1
+      have h2 := nrC_genParams ps rest h.2
+      simp only [genParams, List.all_append, h1, h2, Bool.true_and, Bool.and_true]; rfl
+end
+
 theorem nr_genOutArgs : ∀ (as : Args), ArgsOK as → (genOutArgs as).all Instr.plainI = true
   | .nil, _ => by simp [genOutArgs]
   | .cons a rest, h => by
     simp [genOutArgs, nr_genRv h.1, nr_genOutArgs rest h.2, Instr.plainI]
 
-theorem nr_genRange (a b : Reg) {r : Range} (hr : RangeOK r) : (genRange a b r).all Instr.plainI = true := by
+theorem nr_genRange (a b : Reg) {r : Range} (hr : RangeOK V r) : (genRange a b r).all Instr.plainI = true := by
   obtain ⟨h1, h2⟩ := hr
-  simp only [genRange, List.all_append, nr_genRv h1, Bool.true_and]
+  simp only [genRange, List.all_append, nrC_genRv r.first _ h1, Bool.true_and]
   cases hl : r.last with
   | none => simp [Instr.plainI]
-  | some l => rw [hl] at h2; simpa using nr_genRv h2 _
+  | some l => rw [hl] at h2; simpa using nrC_genRv l _ h2
 
-theorem nr_genMatrixRanges {rows cols : Option Range} (hr : ORangeOK rows) (hc : ORangeOK cols) (cf : Bool) :
+theorem nr_genMatrixRanges {rows cols : Option Range} (hr : ORangeOK V rows) (hc : ORangeOK V cols) (cf : Bool) :
     (genMatrixRanges rows cols cf).all Instr.plainI = true := by
   have h1 : (match rows with | some x => genRange .firstRow .lastRow x | none => []).all Instr.plainI = true := by
     cases rows with
@@ -84,13 +130,72 @@ theorem nr_assembleLoop (pre test bodyPre : List Instr) (body : Code) (post : Li
   simp [nr, Instr.plainI]
 
 
-theorem nr_genLoop {hd : LoopHdr} (hh : LoopHdrOK hd) (body : Code) (hb : nr body = true) :
+theorem all_indexVarRange (v : String) (a b : Rv) (w : Bool) (ha : RvC V a) (hb : RvC V b) :
+    (indexVarRange v a b w).all Instr.plainI = true := by
+  simp only [indexVarRange, List.all_append, nrC_genRv a _ ha, nrC_genRv b _ hb, Bool.true_and]
+  cases w <;> rfl
+
+theorem all_cycleVarRange (v : String) (start : Option Rv) (hs : WithOK V (.cycle v start)) :
+    (cycleVarRange v start).all Instr.plainI = true := by
+  cases start with
+  | none => rfl
+  | some r =>
+    have hr : RvC V r := hs
+    simp only [cycleVarRange, List.all_append, nrC_genRv r _ hr, Bool.true_and]
+    rfl
+
+theorem all_withClause (w : Option WithClause) (hw : OWithOK V w) : (withClause w).all Instr.plainI = true := by
+  cases w with
+  | none => rfl
+  | some wc =>
+    cases wc with
+    | fromTo v a b => exact all_indexVarRange v a b false hw.1 hw.2
+    | cycle v start => exact all_cycleVarRange v start hw
+
+theorem all_loopPost (v : Option String) : (loopPost v).all Instr.plainI = true := by
+  cases v <;> rfl
+
+theorem all_iterItem {i : IterItem} (hi : ItemOK V i) : (iterItem i).all Instr.plainI = true := by
+  cases i with
+  | all => rfl
+  | light n => simp only [iterItem, List.all_append, nrC_genRv n _ (show RvC V n from hi), Bool.true_and]; rfl
+  | group n => simp only [iterItem, List.all_append, nrC_genRv n _ (show RvC V n from hi), Bool.true_and]; rfl
+  | location n => simp only [iterItem, List.all_append, nrC_genRv n _ (show RvC V n from hi), Bool.true_and]; rfl
+
+theorem all_iterItems (items : List IterItem) (h : ∀ i ∈ items, ItemOK V i) :
+    (iterItems items).all Instr.plainI = true := by
+  induction items with
+  | nil => rfl
+  | cons i rest ih =>
+    rw [iterItems_cons, List.all_append, ih (fun j hj => h j (by simp [hj])), all_iterItem (h i (by simp))]
+    rfl
+
+theorem nr_genLoop {hd : LoopHdr} (hh : LoopHdrOK V hd) (body : Code) (hb : nr body = true) :
     nr (genLoop hd body) = true := by
   cases hd with
   | forever => exact nr_assembleLoop _ _ _ _ _ rfl rfl rfl hb rfl
-  | while_ c => exact nr_assembleLoop _ _ _ _ _ rfl (nr_genRv hh _) rfl hb rfl
-  | count n => exact nr_assembleLoop _ _ _ _ _ (nr_genRv hh _) rfl rfl hb rfl
-  | _ => exact absurd hh (by simp [LoopHdrOK])
+  | while_ c => exact nr_assembleLoop _ _ _ _ _ rfl (nrC_genRv c _ hh) rfl hb rfl
+  | count n => exact nr_assembleLoop _ _ _ _ _ (nrC_genRv n _ hh) rfl rfl hb rfl
+  | range v a b =>
+    exact nr_assembleLoop _ _ _ _ _ (all_indexVarRange v a b true hh.1 hh.2) rfl rfl hb rfl
+  | interp n v a b =>
+    refine nr_assembleLoop _ _ _ _ _ ?_ rfl rfl hb rfl
+    rw [List.all_append, nrC_genRv n _ hh.1, all_indexVarRange v a b false hh.2.1 hh.2.2]; rfl
+  | cycle n v start =>
+    refine nr_assembleLoop _ _ _ _ _ ?_ rfl rfl hb rfl
+    rw [List.all_append, nrC_genRv n _ hh.1, all_cycleVarRange v start hh.2]; rfl
+  | all lv w =>
+    refine nr_assembleLoop _ _ _ _ _ ?_ rfl rfl hb (all_loopPost _)
+    rw [List.all_append, List.all_append, all_withClause w hh]; rfl
+  | groups lv w =>
+    refine nr_assembleLoop _ _ _ _ _ ?_ rfl rfl hb (all_loopPost _)
+    rw [List.all_append, List.all_append, all_withClause w hh]; rfl
+  | locations lv w =>
+    refine nr_assembleLoop _ _ _ _ _ ?_ rfl rfl hb (all_loopPost _)
+    rw [List.all_append, List.all_append, all_withClause w hh]; rfl
+  | iter items lv w =>
+    refine nr_assembleLoop _ _ _ _ _ ?_ rfl rfl hb (all_loopPost _)
+    rw [List.all_append, List.all_append, all_withClause w hh.2, all_iterItems items hh.1]; rfl
 
 theorem nr_genRv_simple {a : Rv} (ha : SimpleArg a) (d : Dst) : (genRv a (.to d)).all Instr.plainI = true := by
   cases ha with
@@ -121,8 +226,8 @@ theorem all_timePatterns (rest : List TP.Pat) :
   | cons q rest ih => simp only [List.map_cons, List.all_cons, ih, Bool.and_true]; rfl
 
 mutual
-  theorem nr_genStmt : ∀ (st : Stmt), FragStmt st → nr (genStmt st) = true
-    | .setReg r v, h => by simp only [genStmt, nr_ins]; exact nr_genRv h.2 _
+  theorem nr_genStmt : ∀ (st : Stmt), FragStmt V st → nr (genStmt st) = true
+    | .setReg r v, h => by simp only [genStmt, nr_ins]; exact nrC_genRv v _ h.2
     | .units m, _ => by simp only [genStmt, nr_ins]; rfl
     | .actAll k, _ => by cases k <;> (simp only [genStmt, nr_ins]; rfl)
     | .setDefault, _ => by simp only [genStmt, nr_ins]; rfl
@@ -130,48 +235,48 @@ mutual
       have := nr_genOperands k ops h
       cases k <;> (simp only [genStmt, nr_append, nr_ins, this, Bool.and_true]; rfl)
     | .get name, h => by
-      simp only [genStmt, nr_ins, List.all_append, nr_genRv h, Bool.true_and]; rfl
+      simp only [genStmt, nr_ins, List.all_append, nrC_genRv name _ h, Bool.true_and]; rfl
     | .wait, _ => by simp only [genStmt, nr_ins]; rfl
     | .timeAt ps, _ => by
       cases ps with
       | nil => simp only [genStmt, nr_ins]; rfl
       | cons p rest =>
         simp only [genStmt, nr_ins, List.all_cons, all_timePatterns, Bool.and_true]; rfl
-    | .assign n v, h => by simp only [genStmt, nr_ins]; exact nr_genRv h _
+    | .assign n v, h => by simp only [genStmt, nr_ins]; exact nrC_genRv v _ h
     | .defMacro n v, _ => by simp only [genStmt, nr_ins]; rfl
     | .defRoutine _ _ _, h => absurd h (by simp [FragStmt])
     | .call g ps as, h => by
-      simp only [genStmt, nr_ins, genCall, List.all_append, nr_genParams ps as h.1, Bool.and_true]; rfl
+      simp only [genStmt, nr_ins]; exact nrC_genCall g ps as h.1
     | .ret none, _ => by simp only [genStmt, nr_ins]; rfl
     | .ret (some rv), h => by
-      have h : RvOK rv := h
-      simp only [genStmt, nr_ins, List.all_append, nr_genRv h, Bool.true_and]; rfl
+      have h : RvC V rv := h
+      simp only [genStmt, nr_ins, List.all_append, nrC_genRv rv _ h, Bool.true_and]; rfl
     | .ite c t none, h => by
-      simp only [genStmt, genIf, nr_append, nr_ins, nr_genRv h.1, nr_genBlock t h.2.1, Bool.true_and,
+      simp only [genStmt, genIf, nr_append, nr_ins, nrC_genRv c _ h.1, nr_genBlock t h.2.1, Bool.true_and,
         Bool.and_true]
       exact nr_single _ rfl
     | .ite c t (some e), h => by
-      simp only [genStmt, genIf, nr_append, nr_ins, nr_genRv h.1, nr_genBlock t h.2.1,
+      simp only [genStmt, genIf, nr_append, nr_ins, nrC_genRv c _ h.1, nr_genBlock t h.2.1,
         nr_genBlock e h.2.2, Bool.and_true, nr_single _ (rfl : Instr.plainI (.jump _ _) = true)]
     | .repeat_ hd body, h => by
       simp only [genStmt]
       exact nr_genLoop h.1 _ (nr_genBlock body h.2)
     | .brk, _ => by simp only [genStmt]; rfl
     | .print v, h => by
-      simp only [genStmt, nr_ins, List.all_append, nr_genRv h, Bool.true_and]; rfl
+      simp only [genStmt, nr_ins, List.all_append, nrC_genRv v _ h, Bool.true_and]; rfl
     | .println none, _ => by simp only [genStmt, nr_ins]; rfl
     | .println (some rv), h => by
-      have h : RvOK rv := h
-      simp only [genStmt, nr_ins, List.all_append, nr_genRv h, Bool.true_and]; rfl
+      have h : RvC V rv := h
+      simp only [genStmt, nr_ins, List.all_append, nrC_genRv rv _ h, Bool.true_and]; rfl
     | .printf fmt as, h => by
       simp only [genStmt, nr_ins, List.all_append, nr_genOutArgs as h.1, Bool.true_and]; rfl
     | .stage rows cols cf, h => by
       simp only [genStmt, nr_ins, List.all_append, nr_genMatrixRanges h.1 h.2, Bool.true_and]; rfl
-  theorem nr_genBlock : ∀ (b : Block), FragBlock b → nr (genBlock b) = true
+  theorem nr_genBlock : ∀ (b : Block), FragBlock V b → nr (genBlock b) = true
     | .nil, _ => by simp only [genBlock]; rfl
     | .cons st rest, h => by
       simp only [genBlock, nr_append, nr_genStmt st h.1, nr_genBlock rest h.2, Bool.and_true]
-  theorem nr_genOperand : ∀ (o : Operand_), FragOperand o → nr (genOperand o) = true
+  theorem nr_genOperand : ∀ (o : Operand_), FragOperand V o → nr (genOperand o) = true
     | .light n, _ => by
       simp only [genOperand, nr_ins, List.all_cons, plain_genName, Bool.true_and]; rfl
     | .group n, _ => by
@@ -187,7 +292,7 @@ mutual
     | .matrixBlock n body, h => by
       simp only [genOperand, nr_append, nr_ins, List.all_cons, plain_genName, nr_genBlock body h,
         Bool.true_and, List.all_nil, Bool.and_true]; rfl
-  theorem nr_genOperands (k : ActKind) : ∀ (ops : Operands), FragOperands ops → nr (genOperands k ops) = true
+  theorem nr_genOperands (k : ActKind) : ∀ (ops : Operands), FragOperands V ops → nr (genOperands k ops) = true
     | .nil, _ => by simp only [genOperands]; rfl
     | .cons o rest, h => by
       simp only [genOperands, nr_append, nr_ins, nr_genOperand o h.1, nr_genOperands k rest h.2,
@@ -274,33 +379,47 @@ theorem all_resolve (c : Code) (pc : Nat) (ex : Int) : (resolve c pc ex).all Ins
     | i x => simp only [resolve, List.all_cons, ih, nr]
 
 /-- a compiled script of the fragment is loaded as it is -/
-theorem load_fragment (b : Block) (hb : FragBlock b) (code : List Instr)
+theorem load_fragment (b : Block) (hb : FragBlock V b) (code : List Instr)
     (hcode : Gen.genProgram b = some code) : Loader.load code = ⟨code.toArray, []⟩ := by
   apply load_plain
   have hres : resolve (genBlock b) 0 (0 : Nat) = code := resolve_of_mapM _ _ hcode 0 _
   rw [← hres, all_resolve]
   exact nr_genBlock b hb
 
-/-- a block of the fragment defines no routines -/
-theorem collect_frag : ∀ (b : Block), FragBlock b → Sem.collect b = []
-  | .nil, _ => rfl
-  | .cons st rest, h => by
-    have hr := collect_frag rest h.2
-    cases st with
-    | defRoutine n ps body => exact absurd h.1 (by simp [FragStmt])
-    | ite c t e =>
-      cases e with
-      | none =>
-        have ht := collect_frag t h.1.2.1
-        simp only [Sem.collect, ht, hr, List.append_nil]
-      | some e =>
-        have ht := collect_frag t h.1.2.1
-        have he := collect_frag e h.1.2.2
-        simp only [Sem.collect, ht, he, hr, List.append_nil]
-    | repeat_ hd body =>
-      have hb := collect_frag body h.1.2
-      simp only [Sem.collect, hb, hr, List.append_nil]
-    | _ => simp only [Sem.collect, hr]
+mutual
+  /-- a block of the fragment defines no routines -/
+  theorem collect_frag : ∀ (b : Block), FragBlock V b → Sem.collect b = []
+    | .nil, _ => by rw [Sem.collect]
+    | .cons st rest, h => by
+      have hr := collect_frag rest h.2
+      cases st with
+      | defRoutine n ps body => exact absurd h.1 (by simp [FragStmt])
+      | ite c t e =>
+        cases e with
+        | none =>
+          have ht := collect_frag t h.1.2.1
+          simp only [Sem.collect, ht, hr, List.append_nil]
+        | some e =>
+          have ht := collect_frag t h.1.2.1
+          have he := collect_frag e h.1.2.2
+          simp only [Sem.collect, ht, he, hr, List.append_nil]
+      | repeat_ hd body =>
+        have hb := collect_frag body h.1.2
+        simp only [Sem.collect, hb, hr, List.append_nil]
+      | action k ops =>
+        have ho := collectOps_frag ops h.1
+        simp only [Sem.collect, ho, hr, List.append_nil]
+      | _ => simp only [Sem.collect, hr]
+  theorem collectOps_frag : ∀ (ops : Operands), FragOperands V ops → Sem.collectOps ops = []
+    | .nil, _ => by rw [Sem.collectOps]
+    | .cons o rest, h => by
+      have hr := collectOps_frag rest h.2
+      cases o with
+      | matrixBlock n body =>
+        have hb := collect_frag body h.1
+        simp only [Sem.collectOps, hb, hr, List.append_nil]
+      | _ => simp only [Sem.collectOps, hr]
+end
 
 
 end Sim
